@@ -491,7 +491,7 @@ func run(c lib.Case) (lib.Out, any) {
 }
 
 func main() {
-	lib.Main(func(c lib.Case) (lib.Out, any) {
+	b11repo.ParallelMain(func(c lib.Case) (lib.Out, any) {
 		if c.Bool("dump") {
 			return dump(c)
 		}
